@@ -285,9 +285,19 @@ def compare_cell(exp, got, g, max_points, stats=None):
                                (e["target"], rep["cols"], rep["rows"], [(b["target"], gr.get("cols"), gr.get("rows")) for b, o, gr in big_got]))
             big_got.pop(found)
             continue
-        for off in rep_offsets(e["rep"]):
+        lattice = e["rep"] is not None and e["rep"]["type"] in ("rect", "regular") and tol > TOL_ROUND
+        for k, off in enumerate(rep_offsets(e["rep"])):
             pos = (e["origin"][0] + off[0], e["origin"][1] + off[1])
-            take(got_pl, lambda x: pred_base(x) and abs(x["pos"][0] - pos[0]) <= tol and abs(x["pos"][1] - pos[1]) <= tol,
+            tx = ty = tol
+            if lattice:
+                # an AREF stores three corner points, each rounded on its own: P0 = origin, P1 = origin + cols v1,
+                # P2 = origin + rows v2.  Placement (i, j) re-loads as P0 + (i/cols)(P1 - P0) + (j/rows)(P2 - P0), so with
+                # a = i/cols, b = j/rows its error is e0 (1 - a - b) + a e1 + b e2 with |e1|, |e2| <= 1/2 and e0 known
+                # (up to 1.5 grid units at the far corner of an off-grid lattice with an off-grid origin).
+                a, b = (k // e["rep"]["rows"]) / e["rep"]["cols"], (k % e["rep"]["rows"]) / e["rep"]["rows"]
+                tx = max(TOL_ROUND, abs(round(e["origin"][0]) - e["origin"][0]) * abs(1 - a - b) + 0.5 * (a + b) + 0.01)
+                ty = max(TOL_ROUND, abs(round(e["origin"][1]) - e["origin"][1]) * abs(1 - a - b) + 0.5 * (a + b) + 0.01)
+            take(got_pl, lambda x: pred_base(x) and abs(x["pos"][0] - pos[0]) <= tx and abs(x["pos"][1] - pos[1]) <= ty,
                  "reference to %s placed at %s (rot %r mag %r xrefl %s) not found after reload" % (e["target"], pos, e["rot"], e["mag"], e["xr"]))
     if got_pl or big_got:
         raise Mismatch("%d unexpected reference placement(s) after reload" % (len(got_pl) + len(big_got)))
